@@ -577,3 +577,9 @@ V("C01", "normsys-histoset-lo-hi-swapped", "fire", "C01.R10", "normsys hands (hi
   ("src/pyhf/modifiers/normsys.py", "                    builder_data[m][s]['data']['lo'],\n                    builder_data[m][s]['data']['nom_data'],\n                    builder_data[m][s]['data']['hi'],", "                    builder_data[m][s]['data']['hi'],\n                    builder_data[m][s]['data']['nom_data'],\n                    builder_data[m][s]['data']['lo'],"))
 V("C01", "histosys-default-ones", "fire", "C01.R10", "histosys leaves 1 instead of 0 where not declared",
   ("src/pyhf/modifiers/histosys.py", "self.histosys_default = tensorlib.zeros(self.histosys_mask.shape)", "self.histosys_default = tensorlib.ones(self.histosys_mask.shape)"))
+V("C01", "rate-sum-wrong-axis", "fire", "C01.R12", "samples summed along the batch axis",
+  ("src/pyhf/pdf.py", "        newresults = tensorlib.sum(newbysample, axis=0)", "        newresults = tensorlib.sum(newbysample, axis=1)"))
+V("C01", "rate-clip-bin-before-sum", "fire", "C01.R12", "bin clip applied to the per-sample rates",
+  ("src/pyhf/pdf.py", "        newresults = tensorlib.sum(newbysample, axis=0)\n        if self.clip_bin_data is not None:\n            newresults = tensorlib.clip(newresults, self.clip_bin_data, max_value=None)", "        if self.clip_bin_data is not None:\n            newbysample = tensorlib.clip(newbysample, self.clip_bin_data, max_value=None)\n        newresults = tensorlib.sum(newbysample, axis=0)"))
+V("C01", "rate-bysample-no-swap", "fire", "C01.R12", "by-sample result keeps the sample axis first",
+  ("src/pyhf/pdf.py", "            batch_first = tensorlib.einsum('ij...->ji...', newbysample)", "            batch_first = newbysample"))
